@@ -212,3 +212,30 @@ Definition num_mutations_vs_ref (alphabet : Z) (ref s : list byte) : option nat 
     Some (length (filter (fun x => let '(b, r) := x in
                                    negb (beqb b GAP) && negb (beqb b ALL_AMINO) && negb (beqb b r))
                          (combine s ref))).
+
+(* ListMutationsComparedToReferenceSequence (nucleotide-wise): substitutions and insertions relative to
+   the reference, positions counted on the ungapped reference; (Ref, Pos, Alt) *)
+Definition mutation := (byte * Z * list byte)%type.
+Fixpoint list_mut_loop (all : byte) (cols : list (byte * byte * bool)) (cur : list byte) (refi : Z) : list mutation :=
+  match cols with
+  | [] => match cur with [] => [] | _ => [(GAP, refi, cur)] end
+  | (b, rb, eq) :: t =>
+      if beqb rb GAP then list_mut_loop all t (if beqb b GAP then cur else cur ++ [b]) refi
+      else
+        (match cur with [] => [] | _ => [(GAP, refi, cur)] end) ++
+        (if negb (beqb b all) && negb eq then [(rb, refi, [b])] else []) ++
+        list_mut_loop all t [] (refi + 1)
+  end.
+
+Definition list_mutations_vs_ref (alphabet : Z) (ref s : list byte) : option (list mutation) :=
+  if negb (Nat.eqb (length ref) (length s)) then None
+  else if Z.eqb alphabet NUCLEOTIDS then
+    match all_some (map nt_code ref), all_some (map nt_code s) with
+    | Some refc, Some sc =>
+        match all_some (map (fun x => equal_or_compatible (fst x) (snd x)) (combine sc refc)) with
+        | Some eqs => Some (list_mut_loop ALL_NUCLE (combine (combine s ref) eqs) [] 0)
+        | None => None
+        end
+    | _, _ => None
+    end
+  else Some (list_mut_loop ALL_AMINO (map (fun x => (fst x, snd x, beqb (fst x) (snd x))) (combine s ref)) [] 0).
